@@ -319,3 +319,57 @@ def gen_and_replay(ctx, module, cfg, family, what, timeout=600, workers=1, extra
         ctx.drift.append("%s: implementation internals differ from the L2 model on %s vectors" % (
             cfg, res.get("ndrift", len(res.get("drift", [])))))
     return res
+
+
+def gen_record_validate(ctx, gen_module, gen_cfg, family, what, trace_module, trace_cfg, chunks=4, extra=None, timeout=900):
+    """spec -> impl -> spec: TLC enumerates the behaviours (call sequences) of a bounded model; the driver replays
+    them into the real code and RECORDS what it does; TLC validates that record against the L1 specification."""
+    t = time.time()
+    rc, out = tlc(gen_module, gen_cfg, ctx.work, workers=1, timeout=timeout, xmx="4g")
+    gen, dist = tlc_stats(out)
+    if "Model checking completed. No error has been found." not in out:
+        raise ToolError("behaviour generator %s/%s failed (rc=%s)\n%s" % (gen_module, gen_cfg, rc, out[-3000:]))
+    tag = os.path.basename(gen_cfg).replace(".cfg", "")
+    vec = os.path.join(ctx.work, "beh_%s.ndjson" % tag)
+    n = 0
+    with open(vec, "w") as f:
+        for line in out.splitlines():
+            if line.startswith('"{'):
+                f.write(json.loads(line) + "\n")
+                n += 1
+    if n == 0:
+        raise ToolError("generator %s/%s printed no behaviours" % (gen_module, gen_cfg))
+    ctx.states += dist
+    ctx.transitions += gen
+    ctx.vectors += n
+    ctx.mc_runs.append({"module": gen_module, "cfg": tag, "what": "behaviour generation: " + what, "generated": gen, "distinct": dist,
+                        "vectors": n, "ok": True, "wall_s": round(time.time() - t, 1)})
+    base = os.path.join(ctx.work, "replayed_%s" % tag)
+    rv(["replay", family, "--in", vec, "--out", base, "--chunks", chunks] + (extra or []), timeout=1500)
+    with open(vec) as f:
+        ctx.sample({"behaviour": json.loads(f.readline()), "from": tag})
+
+    def one(i):
+        path = "%s_%d.ndjson" % (base, i)
+        if not os.path.exists(path):
+            return None
+        return (path,) + validate_trace(ctx, trace_module, trace_cfg, path)[:3]
+
+    with cf.ThreadPoolExecutor(max_workers=8) as ex:
+        for r in ex.map(one, range(chunks)):
+            if r is None:
+                continue
+            path, rej, g, d = r
+            ctx.traces += 1
+            ctx.events += nlines(path) - 1
+            ctx.states += d
+            ctx.transitions += g
+            if rej is not None:
+                lines = open(path).readlines()
+                # cut the replay down to the behaviour that contains the rejected line
+                start = max(i for i in range(rej[0]) if '"ev":"snew"' in lines[i] or i == 0)
+                rp = os.path.join(ctx.replays, os.path.basename(path))
+                with open(rp, "w") as f:
+                    f.write(lines[0])
+                    f.writelines(lines[max(start, 1):rej[0]])
+                ctx.violation("replayed behaviour of %s rejected at line %d of %s: %s" % (what, rej[0], os.path.basename(path), lines[rej[0] - 1].strip()[:300]), rp)
